@@ -28,8 +28,11 @@ EXPLANATION = (
     'finds its file, external destinations end up with the right content, no two different contents ever meet at '
     'one local or remote path, each consumer lists its producer in parent_ids, and the submitted script contains '
     'each command byte-identical except that every reference became ${BATCH_TMPDIR}<shlex.quote(path)>. '
-    'Bounded: quick N=3 (1 read/job) and a small N=4 space (file/group outputs, externals on, base variant), thorough N=3 (richer reads, fan-in on the last job) and N=4 (file/group '
-    'outputs); variants and defect kinds are explored on a reduced space (outputs file/group, externals on).'
+    'Bounded: quick N=3 (1 read/job, all variants) and a small N=4 space (file/group outputs, externals on, base '
+    'variant); thorough N=3 with every output kind and read kind (external output free on the last job), N=3 with '
+    'externals free on every job, N=3 with a second read (fan-in) on the last job, N=4 with file/group outputs and '
+    'variants base/reverse/id-shift; variants and defect kinds are explored on a reduced space (other outputs '
+    'file/group, externals on).'
 )
 SRC = {
     'hail/python/hailtop/batch/backend.py': {'ServiceBackend': ['_async_run']},
@@ -60,25 +63,30 @@ CLAUSES = {
 
 
 def _configs(tier):
-    common = dict(small_kinds=[1, 3], variants_on_small_space=True, special_fix_x=True, in_reads2=[])
+    """-> (configurations, pool budget in seconds).  Shards that do not finish before the deadline are not discharged."""
+    common = dict(small_kinds=[1, 3], variants_on_small_space=True, special_fix_x=True, in_reads2=[], two_reads_jobs=[])
+    allv = list(range(12))
     if tier == 'quick':
-        return [dict(common, tag='N3', N=3, variants=list(range(12)), out_kinds=[1, 2, 3, 4, 5, 6],
-                     in_reads1=['inA', 'ig'], two_reads_jobs=[], nfix=['o_0', 'o_1'], deadline_s=160),
-                dict(common, tag='N4', N=4, variants=[0], out_kinds=[1, 3], in_reads1=['inA'], two_reads_jobs=[],
-                     fix_x_all=True, nfix=['o_0', 'o_1'], deadline_s=160)]
+        return [dict(common, tag='N3', N=3, variants=allv, out_kinds=[1, 2, 3, 4, 5, 6], in_reads1=['inA', 'ig'],
+                     nfix=['o_0', 'o_1']),
+                dict(common, tag='N4', N=4, variants=[0], out_kinds=[1, 3], in_reads1=['inA'], fix_x_all=True,
+                     nfix=['o_0', 'o_1'])], 170
     return [
-        dict(common, tag='N3', N=3, variants=list(range(12)), out_kinds=[0, 1, 2, 3, 4, 5, 6],
-             in_reads1=['inA', 'inB', 'ig', 'igm'], two_reads_jobs=[2], nfix=['o_0', 'o_1', 'o_2'], deadline_s=1300),
-        dict(common, tag='N4', N=4, variants=list(range(12)), out_kinds=[1, 3, 5, 6],
-             in_reads1=['inA'], two_reads_jobs=[], nfix=['o_0', 'o_1', 'o_2'], deadline_s=1300),
-    ]
+        dict(common, tag='N3', N=3, variants=allv, out_kinds=[0, 1, 2, 3, 4, 5, 6],
+             in_reads1=['inA', 'inB', 'ig', 'igm'], x_free_jobs=[2], nfix=['o_0', 'o_1']),
+        dict(common, tag='N3x', N=3, variants=[0], out_kinds=[1, 2, 3, 4], in_reads1=['inA', 'ig'], nfix=['o_0', 'o_1']),
+        dict(common, tag='N3fanin', N=3, variants=[0], out_kinds=[1, 3], in_reads1=['inA'], two_reads_jobs=[2],
+             nfix=['o_0', 'o_1']),
+        dict(common, tag='N4', N=4, variants=[0, 1, 5], out_kinds=[1, 3, 5, 6], in_reads1=['inA'], x_free_jobs=[2, 3],
+             nfix=['o_0', 'o_1']),
+    ], 1300
 
 
-def _shards(cfg):
+def _shards(cfg, deadline_at):
     fixes = [{}]
     for nm in cfg['nfix']:
         fixes = [dict(f, **{nm: k}) for f in fixes for k in range(len(cfg['out_kinds']))]
-    return [dict({k: v for k, v in cfg.items() if k != 'nfix'}, fix=f) for f in fixes]
+    return [dict({k: v for k, v in cfg.items() if k != 'nfix'}, fix=f, deadline_at=deadline_at) for f in fixes]
 
 
 def _work(a):
@@ -107,10 +115,11 @@ def _clause_of(kind):
 
 def run(R):
     from harness import C18_service as H
-    cfgs = _configs(R.tier)
+    cfgs, budget = _configs(R.tier)
     R.bounds = {c['tag']: {'N': c['N'], 'out_kinds': {k: H.OUT_KINDS[k] for k in c['out_kinds']},
                            'first_read': ['none'] + c['in_reads1'] + ['output of an earlier job (whole)', 'member of an earlier job\'s group'],
-                           'second_read_on_jobs': c['two_reads_jobs'], 'external_output': '0/1 per job',
+                           'second_read_on_jobs': c['two_reads_jobs'],
+                           'external_output': '0/1 per job' if c.get('x_free_jobs') is None else f'0/1 for jobs {c["x_free_jobs"]}, others 0 (1 outside the base space)',
                            'variants': {k: H.VARIANTS[k] for k in c['variants']},
                            'constraints': 'variants != base and defect kinds (5, 6; at most one job) only on the small '
                                           'space: other outputs in {file, group}, no second read, externals on'}
@@ -131,7 +140,7 @@ def run(R):
     R.extra['trusted_base'] = ['z3', 'vt/shapesym.py', 'harness/C18_shell.py (shell word parser + abstract executor)',
                                'harness/C18_service.py (builder, fake HTTP, text oracle)']
     _encode(R)
-    shards = [s for c in cfgs for s in _shards(c)]
+    shards = [s for c in cfgs for s in _shards(c, time.time() + budget)]
     t0 = time.time()
     results = []
     with cf.ProcessPoolExecutor(max_workers=WORKERS, mp_context=mp.get_context('spawn')) as ex:
